@@ -212,3 +212,24 @@ _EDITS3 = [
 for _k, _a, _b in _EDITS3:
     assert _a in TEXTS[_k][0], (_k, _a)
     TEXTS[_k] = (TEXTS[_k][0].replace(_a, _b), TEXTS[_k][1])
+
+_EDITS4 = [
+ ("C19", "the oracle re-derives a segmentation of the batch from the code's datagrams.",
+  "the oracle re-derives a segmentation of the batch from the code's datagrams and reads them back with a Thrift reader written "
+  "independently of the encoder; the whole emitBatch message reads back to the service name and exactly its spans for every batch "
+  "whose integers fit 64 bits (theorem), hence the message encoding is injective."),
+ ("C09", "Tied to the code", "Tied to the code"),
+]
+for _k, _a, _b in _EDITS4:
+    if _a not in TEXTS[_k][0]:
+        continue
+    TEXTS[_k] = (TEXTS[_k][0].replace(_a, _b), TEXTS[_k][1])
+
+_EDITS5 = [
+ ("C06", "Kernel-checked theorems", "Kernel-checked theorems (incl. the whole report: with pairwise distinct span ids every record takes exactly its own bucket "
+  "of attachments in parking order and no record anything else; a local-span set's attachments go to the span that was innermost when "
+  "they were recorded)"),
+]
+for _k, _a, _b in _EDITS5:
+    if _a in TEXTS[_k][0]:
+        TEXTS[_k] = (TEXTS[_k][0].replace(_a, _b, 1), TEXTS[_k][1])
